@@ -374,20 +374,21 @@ class ScriptGen:
                 self.defs.append(nm)
                 self.scalars.append((nm, "float"))
                 items.append(["float %s = %s" % (nm, r.choice(FP_EDGES))])
-            elif k < 0.075 and "deep_expr" in self.f:
+            elif k < 0.05 and "deep_expr" in self.f:
                 # a long chain a+a+...+a: the parse tree is as deep as the chain is long, so
                 # whether the script loads depends on the interpreter's recursion headroom -
                 # process-wide state that an earlier load may have left changed.  Lengths are
                 # log-uniform around the default boundary (several hundred to a thousand terms)
-                # and well beyond it
+                # and up to a few times beyond it (a load of such a script costs up to ~0.2 s, and ten times
+                # that under the line tracer of a counting dry run, hence one item in a hundred)
                 import math
-                nterms = int(math.exp(r.uniform(math.log(200), math.log(6000))))
+                nterms = int(math.exp(r.uniform(math.log(250), math.log(3600))))
                 nm = self.free_name()
                 self.defs.append(nm)
                 self.scalars.append((nm, "float"))
                 atom = r.choice(["1", "0.5", "2"])
                 items.append(["float %s = %s" % (nm, "+".join([atom] * nterms))])
-            elif k < 0.12 and "typed_equal" in self.f:
+            elif k < 0.10 and "typed_equal" in self.f:
                 # the run's one function applied to one of a few values that are equal across
                 # types (-1, -1.0, -1+0j ...), directly or through a variable of that type
                 t, lit = r.choice(TYPED_EQUAL[self.cfg.get("typed_group", 0)])
